@@ -4,6 +4,7 @@ real Scenario.sceneToBytes / sceneFromBytes path."""
 import random
 
 from scenic.core.distributions import Distribution
+from scenic.core.vectors import Orientation, Vector
 
 BOUNDARY_INTS = [0, 1, 252, 253, 254, 255, 256, -1, -2, 32767, 32768, -32768, -32769, 65535, 65536,
                  2147483647, 2147483648, -2147483648, -2147483649, 2**63, -(2**63), 2**64 - 1, 2**127,
@@ -55,3 +56,28 @@ class RandBool(_Prim):
 class RandNone(_Prim):
     _vt = type(None)
     _choices = (None,)
+
+
+# run-time variants (drawn at every step of a behaviour: keep the replay small)
+class SRandStr(_Prim):
+    _vt = str
+    _choices = ("", "a", "zoggle", "\u00e9" * 3, "x" * 252, "y" * 253, "\u65e5\u672c\u8a9e")
+
+
+class SRandBytes(_Prim):
+    _vt = bytes
+    _choices = (b"", b"\x00", b"\xff" * 253, bytes(range(256)))
+
+
+class RandVec(_Prim):
+    _vt = Vector
+
+    def sampleGiven(self, value):
+        return Vector(random.randint(-5, 5) / 4, random.random(), random.choice([0.0, -1.5, 1e300, 5e-324]))
+
+
+class RandOri(_Prim):
+    _vt = Orientation
+
+    def sampleGiven(self, value):
+        return Orientation.fromEuler(random.uniform(-3, 3), random.uniform(-1, 1), random.uniform(-3, 3))
